@@ -242,6 +242,14 @@ func tAfterName(c context, s []byte) (context, int) {
 		c.state, c.attr = stateTag, attr{}
 		return c, i
 	}
+	if strings.HasPrefix(c.attr.name, "/") {
+		// `</a /="x">`: in an end tag "/" is kept as the first character of a name, but a
+		// browser starts a new attribute name at the "=" that follows it.
+		return context{
+			state: stateError,
+			err:   errorf(ErrBadHTML, nil, 0, "expected space, attr name, or end of tag, but got %q", s[i:]),
+		}, len(s)
+	}
 	if c.attr.name == "" {
 		// `<a {{if .C}}href{{end}}="x">`: the name kept from the conditional branches is the
 		// empty one. Without a name a browser does not read `="x"` as a value.
